@@ -94,8 +94,8 @@ Proof.
 Qed.
 
 Lemma erase0_ext : forall s l,
-  nth l (rows (erase_line 0 s)) [] =
-  if Nat.eqb l (crow s) then firstn (ccol s) (nth (crow s) (rows s) []) else nth l (rows s) [].
+  nth l (rows (erase_line tc 0 s)) [] =
+  if Nat.eqb l (crow s) then firstn (ecol tc s) (nth (crow s) (rows s) []) else nth l (rows s) [].
 Proof. intros s l. cbn. apply nth_upd. Qed.
 
 (* ---------------------------------------------------------------- the parser on well-formed text *)
@@ -155,7 +155,7 @@ Lemma run_lf s : run tc (s, Ground) (render_cmd LF) = (interp tc s LF, Ground).
 Proof. reflexivity. Qed.
 Lemma run_cr s : run tc (s, Ground) (render_cmd CR) = (interp tc s CR, Ground).
 Proof. reflexivity. Qed.
-Lemma run_up1 s : run tc (s, Ground) (render_cmd (Up 1%N)) = (cursor_up 1 s, Ground).
+Lemma run_up1 s : run tc (s, Ground) (render_cmd (Up 1%N)) = (cursor_up tc 1 s, Ground).
 Proof. reflexivity. Qed.
 Lemma run_erase s : run tc (s, Ground) (render_cmd EraseEOL) = (interp tc s EraseEOL, Ground).
 Proof. reflexivity. Qed.
@@ -201,18 +201,21 @@ Proof.
 Qed.
 
 Lemma up_k : forall k s,
-  fold_left (interp tc) (repeat (Up 1%N) k) s = mkscr (rows s) (crow s - k) (ccol s) (cvis s) (hides s).
+  exists c', fold_left (interp tc) (repeat (Up 1%N) k) s = mkscr (rows s) (crow s - k) c' (cvis s) (hides s).
 Proof.
   induction k as [|k IH]; intros s.
-  - destruct s; cbn. rewrite Nat.sub_0_r. reflexivity.
-  - cbn [repeat fold_left]. rewrite IH. cbn. f_equal. lia.
+  - exists (ccol s). destruct s; cbn. rewrite Nat.sub_0_r. reflexivity.
+  - cbn [repeat fold_left]. destruct (IH (interp tc s (Up 1%N))) as [c' H]. exists c'. rewrite H.
+    cbn. f_equal. lia.
 Qed.
 
 Lemma goto_effect : forall a b s,
   fold_left (interp tc) (repeat LF a ++ repeat (Up 1%N) b ++ [CR]) s
   = mkscr (rows s) (crow s + a - b) 0 (cvis s) (hides s).
 Proof.
-  intros a b s. rewrite !fold_left_app. destruct (lf_k a s) as [c' H]. rewrite H, up_k. reflexivity.
+  intros a b s. rewrite !fold_left_app. destruct (lf_k a s) as [c' H]. rewrite H.
+  destruct (up_k b (mkscr (rows s) (crow s + a) c' (cvis s) (hides s))) as [c'' H']. rewrite H'.
+  reflexivity.
 Qed.
 
 Lemma goto_cmd_ok a b : Forall cmd_ok (repeat LF a ++ repeat (Up 1%N) b ++ [CR]).
